@@ -101,6 +101,13 @@ class SimCluster:
             return 0, "", f"{cmd}: error: Unable to contact slurm controller (connect failure)\n"
         if kind == "garbage":
             return 1, "@@@ \x00 not a job id\n", f"{cmd}: Communication failure\n"
+        if kind == "exit1-plain":
+            # a failure whose message does not carry the word "error:" (sbatch: fatal: ..., "Unable to run job: ...")
+            return 1, "", {"sbatch": "sbatch: fatal: Invalid account or account/partition combination specified\n",
+                           "qsub": "Unable to run job: denied: host is no submit host.\nExiting.\n",
+                           "bsub": "Request aborted by esub. Job not submitted.\n"}.get(cmd, f"{cmd}: fatal: request refused\n")
+        if kind == "killed":
+            return -9, "", ""  # the scheduler command was killed (no output at all)
         raise SimError(f"unknown fault kind {kind}")
 
     def mutating_log(self):
@@ -225,12 +232,14 @@ class SimCluster:
         err = ""
         for i in ids:
             j = self.jobs.get(i)
+            if verbose:
+                # scancel announces the signal before it learns the outcome; a refusal follows on the next line
+                # and the exit status stays 0
+                err += f"scancel: Terminating job {i}\n"
             if j is None or j.ended or j.foreign:
                 err += f"scancel: error: Kill job error on job id {i}: Invalid job id specified\n"
             else:
                 self.cancel(j.id, by="user")
-                if verbose:
-                    err += f"scancel: Terminating job {i}\n"
         return 0, "", err
 
     def _cmd_sinfo(self, args, stdin):
